@@ -27,11 +27,22 @@ PROVIDERS = {
     "oidc": {"pkce": False, "openid": True},
     "both": {"pkce": True, "openid": True},
     "legacy": {"oauth1": True, "pkce": False, "openid": False},
+    # two providers registered with ONE preset client class (client_cls with a class-level OAUTH_APP_CONFIG, as the documented
+    # "compliance" presets are): they share endpoints, not their name, state or credentials
+    "presetA": {"pkce": False, "openid": False, "preset": True},
+    "presetB": {"pkce": False, "openid": False, "preset": True},
 }
 
 
-def register_kwargs(name):
+def register_kwargs(name, oauth=None):
     o = PROVIDERS[name]
+    if o.get("preset"):
+        cls = getattr(oauth, "_verif_preset_cls", None)
+        if cls is None:
+            cls = type("PresetApp", (oauth.oauth2_client_cls,), {"OAUTH_APP_CONFIG": {
+                "access_token_url": "https://preset.example/token", "authorize_url": "https://preset.example/authorize", "client_kwargs": {}}})
+            oauth._verif_preset_cls = cls
+        return dict(client_id="cid-" + name, client_secret="sec", client_cls=cls)
     if o.get("oauth1"):
         return dict(client_id="cid-" + name, client_secret="sec", request_token_url="https://%s.example/request" % name,
                     access_token_url="https://%s.example/access" % name, authorize_url="https://%s.example/authorize" % name)
@@ -91,6 +102,7 @@ class MockProvider:
         self.code_owner = {}     # code -> state string of the flow the provider bound it to
         self.rt = 0
         self.fail_next = False   # the next token / access-token request is refused by the provider
+        self.id_token_exp = 600  # lifetime of the ID tokens it issues, relative to its clock (negative: already expired)
 
     def handle(self, method, url, body, headers):
         form = dict(up.parse_qsl(body or "", keep_blank_values=True))
@@ -109,7 +121,7 @@ class MockProvider:
         owner = self.flows.get(self.code_owner.get(form.get("code")))
         if owner and owner.get("nonce"):
             payload = {"iss": ISSUER, "sub": "u1", "aud": [form.get("client_id") or "cid-" + owner["prov"]], "iat": int(self.clock.t),
-                       "exp": int(self.clock.t) + 600, "nonce": owner["nonce"]}
+                       "exp": int(self.clock.t) + self.id_token_exp, "nonce": owner["nonce"]}
             tok["id_token"] = jwt.encode({"alg": "HS256", "kid": "k1"}, payload, HS_KEY).decode()
         return 200, json.dumps(tok), "application/json"
 
@@ -199,7 +211,7 @@ class FlaskAdapter(Base):
         self.cache = Cache(self.clock) if use_cache else None
         self.oauth = OAuth(self.app, cache=self.cache)
         for n in PROVIDERS:
-            self.oauth.register(n, **register_kwargs(n))
+            self.oauth.register(n, **register_kwargs(n, self.oauth))
 
     def _ctx(self, sess, path="/"):
         return self.app.test_request_context(path)
@@ -212,7 +224,7 @@ class FlaskAdapter(Base):
             self.sessions[sess] = dict(session)
         return self.record_begin(prov, resp.headers["Location"], redirect)
 
-    def callback(self, sess, prov, ref, code, provider_fails=False):
+    def callback(self, sess, prov, ref, code, provider_fails=False, aat_kwargs=None):
         from flask import session
         self.provider.fail_next = provider_fails
         st = self.state_string(ref)
@@ -228,7 +240,7 @@ class FlaskAdapter(Base):
         with self._ctx(sess, "/cb?" + up.urlencode(q)), patched_send(self.provider):
             session.update(self.sessions[sess])
             try:
-                token = getattr(self.oauth, prov).authorize_access_token()
+                token = getattr(self.oauth, prov).authorize_access_token(**(aat_kwargs or {}))
                 out = ("token", token)
             except Exception as e:  # noqa: BLE001
                 out = ("error", type(e).__name__, str(e))
@@ -262,7 +274,7 @@ class DjangoAdapter(Base):
         self.cache = Cache(self.clock) if use_cache else None
         self.oauth = OAuth(cache=self.cache)
         for n in PROVIDERS:
-            self.oauth.register(n, **register_kwargs(n))
+            self.oauth.register(n, **register_kwargs(n, self.oauth))
 
     def _request(self, sess, path):
         from django.test import RequestFactory
@@ -275,7 +287,7 @@ class DjangoAdapter(Base):
             resp = getattr(self.oauth, prov).authorize_redirect(self._request(sess, "/login"), redirect)
         return self.record_begin(prov, resp["Location"], redirect)
 
-    def callback(self, sess, prov, ref, code, provider_fails=False):
+    def callback(self, sess, prov, ref, code, provider_fails=False, aat_kwargs=None):
         self.provider.fail_next = provider_fails
         st = self.state_string(ref)
         if PROVIDERS[prov].get("oauth1"):
@@ -289,7 +301,7 @@ class DjangoAdapter(Base):
         n = len(self.provider.log)
         with patched_send(self.provider):
             try:
-                token = getattr(self.oauth, prov).authorize_access_token(self._request(sess, "/cb?" + up.urlencode(q)))
+                token = getattr(self.oauth, prov).authorize_access_token(self._request(sess, "/cb?" + up.urlencode(q)), **(aat_kwargs or {}))
                 out = ("token", token)
             except Exception as e:  # noqa: BLE001
                 out = ("error", type(e).__name__, str(e))
@@ -315,7 +327,7 @@ class StarletteAdapter(Base):
         self.cache = AsyncCache(self.clock) if use_cache else None
         self.oauth = OAuth(cache=self.cache)
         for n in PROVIDERS:
-            kw = register_kwargs(n)
+            kw = register_kwargs(n, self.oauth)
             ck = dict(kw.get("client_kwargs") or {})
             ck["transport"] = T()
             kw["client_kwargs"] = ck
@@ -331,7 +343,7 @@ class StarletteAdapter(Base):
         resp = asyncio.run(getattr(self.oauth, prov).authorize_redirect(self._request(sess, "/login"), redirect))
         return self.record_begin(prov, resp.headers["location"], redirect)
 
-    def callback(self, sess, prov, ref, code, provider_fails=False):
+    def callback(self, sess, prov, ref, code, provider_fails=False, aat_kwargs=None):
         self.provider.fail_next = provider_fails
         st = self.state_string(ref)
         if PROVIDERS[prov].get("oauth1"):
@@ -346,7 +358,7 @@ class StarletteAdapter(Base):
 
         async def go():
             try:
-                token = await getattr(self.oauth, prov).authorize_access_token(self._request(sess, "/cb", up.urlencode(q)))
+                token = await getattr(self.oauth, prov).authorize_access_token(self._request(sess, "/cb", up.urlencode(q)), **(aat_kwargs or {}))
                 return ("token", token)
             except Exception as e:  # noqa: BLE001
                 return ("error", type(e).__name__, str(e))
